@@ -616,6 +616,11 @@ def g_deep(R, rng, n):
             ("btclib.bip32.der_path.indexes_from_der_path", {"rep": ["m", 1, {"rep": ["/0", d, "", ""]}, ""]}),
             ("btclib.bip21.Bip21.parse", {"rep": ["bitcoin:?", 1, {"rep": ["a=1&", d, "", ""]}, ""]}),
         ]
+        # a caller's script tree nested d deep (left spine and right spine), through every function that walks it
+        lf = G.L([G.T([0xC0, G.L(["OP_1"])])])
+        for spine in ({"deep2": ["left", d, lf]}, {"deep2": ["right", d, lf]}):
+            cases += [("btclib.script.taproot.tree_helper", spine), ("btclib.script.taproot.output_pubkey", [None, spine]),
+                      ("btclib.script.taproot.output_prvkey", [1, spine]), ("btclib.script.script_pub_key.ScriptPubKey.p2tr", [None, spine])]
         # scripts nested in IFs / long scripts read back as miniscript
         cases.append(("btclib.descriptors.miniscript.from_script", B(b"\x63" * d + b"\x51" + b"\x68" * d)))
         cases.append(("btclib.script.script.parse", B(b"\x63" * d + b"\x68" * d)))
@@ -668,6 +673,9 @@ def g_deep(R, rng, n):
     if n < len(cases):
         cases = cases[part::4]
     for ep, spec in cases[:n]:
+        if isinstance(spec, list):
+            C.call_spec(R, "deep", ep, spec, {}, consumers=False)
+            continue
         spec = _flatten_rep(spec)
         C.call_spec(R, "deep", ep, [spec], {}, consumers=False)
 
